@@ -84,3 +84,51 @@ def sympy_to_z3(expr, env):
             acc = acc * b
         return acc
     raise EngineUnsupported("sympy node %r" % (expr,))
+
+
+def z3_to_sympy(t, cache=None):
+    """z3 Int polynomial term (+, -, *, unary -, numerals, Int constants) -> sympy expression"""
+    import sympy as sp
+    cache = {} if cache is None else cache
+    k = t.get_id()
+    if k in cache:
+        return cache[k]
+    if z3.is_int_value(t):
+        r = sp.Integer(t.as_long())
+    elif z3.is_const(t) and t.decl().kind() == z3.Z3_OP_UNINTERPRETED:
+        r = sp.Symbol(str(t))
+    elif z3.is_app(t):
+        kind = t.decl().kind()
+        args = [z3_to_sympy(a, cache) for a in t.children()]
+        if kind == z3.Z3_OP_ADD:
+            r = sp.Add(*args)
+        elif kind == z3.Z3_OP_MUL:
+            r = sp.Mul(*args)
+        elif kind == z3.Z3_OP_SUB:
+            r = args[0] - sp.Add(*args[1:])
+        elif kind == z3.Z3_OP_UMINUS:
+            r = -args[0]
+        else:
+            raise EngineUnsupported("non-polynomial z3 node %s" % t.decl().name())
+    else:
+        raise EngineUnsupported("z3 node %r" % (t,))
+    cache[k] = r
+    return r
+
+
+def congruence_witness(lhs, rhs, Q):
+    """lhs, rhs: z3 Int polynomial terms.  Returns a z3 term K with lhs - rhs == Q*K as polynomials over Z (so lhs = rhs
+    mod Q), the integer 0 when lhs - rhs is the zero polynomial, or None when some coefficient is not divisible by Q"""
+    import sympy as sp
+    diff = sp.expand(z3_to_sympy(lhs) - z3_to_sympy(rhs))
+    if diff == 0:
+        return 0
+    syms = sorted(diff.free_symbols, key=str)
+    P = sp.Poly(diff, *syms) if syms else None
+    coeffs = P.coeffs() if P is not None else [diff]
+    if any(int(c) % Q for c in coeffs):
+        return None
+    if P is None:
+        return z3.IntVal(int(diff) // Q)
+    Kexpr = sp.Poly.from_dict({m: int(c) // Q for m, c in P.terms()}, *syms).as_expr()
+    return sympy_to_z3(Kexpr, {str(x): z3.Int(str(x)) for x in syms})
